@@ -104,4 +104,47 @@ impl S {
         self.v.push(9);
         Ok(())
     }
+
+    // ---- transparent helpers (names containing `inl_helper` are NOT in rules/known_fns.txt): the three functions
+    // below must be analysed as if their helpers were written in line
+    fn inl_helper_check(&self, n: usize) -> Result<(), ()> {
+        if !self.flag || n > self.n {
+            return Err(());
+        }
+        Ok(())
+    }
+    fn inl_helper_push(&mut self, x: u32) {
+        self.v.push(x);
+    }
+    fn inl_helper_nest<F: FnOnce(&mut Self) -> Result<usize, ()>>(&mut self, f: F) -> Result<usize, ()> {
+        if self.depth + 1 >= 30 {
+            return Err(());
+        }
+        self.depth += 1;
+        let r = f(self);
+        self.depth -= 1;
+        r
+    }
+
+    pub fn inl_caller(&mut self, n: usize, x: u32) -> Result<(), ()> {
+        self.inl_helper_check(n)?;
+        self.inl_helper_push(x);
+        Ok(())
+    }
+
+    pub fn inl_caller_unguarded(&mut self, x: u32) {
+        self.inl_helper_push(x);
+    }
+
+    pub fn inl_rec(&mut self) -> Result<usize, ()> {
+        self.inl_helper_nest(|s| s.inl_rec_inner())
+    }
+
+    fn inl_rec_inner(&mut self) -> Result<usize, ()> {
+        if self.v.pop().is_some() {
+            self.inl_rec()
+        } else {
+            Ok(0)
+        }
+    }
 }
